@@ -133,16 +133,22 @@ pub fn compare(a: &Prog, b: &Prog) -> ShapeCmp {
 }
 
 impl Prog {
-    /// merge constants with identical bit patterns
-    pub fn dedup_consts(&mut self) {
+    /// merge constants with identical bit patterns, except the slots in `keep` (state-dependent
+    /// "leaked" constants, which keep a slot of their own); returns the slot remapping
+    pub fn dedup_consts_keep(&mut self, keep: &[usize]) -> Vec<u32> {
         let mut idx: HashMap<u64, u32> = HashMap::new();
         let mut newc = Vec::new();
         let mut remap = Vec::with_capacity(self.consts.len());
-        for c in &self.consts {
-            let k = *idx.entry(c.to_bits()).or_insert_with(|| {
+        for (i, c) in self.consts.iter().enumerate() {
+            let k = if keep.contains(&i) {
                 newc.push(*c);
                 newc.len() as u32 - 1
-            });
+            } else {
+                *idx.entry(c.to_bits()).or_insert_with(|| {
+                    newc.push(*c);
+                    newc.len() as u32 - 1
+                })
+            };
             remap.push(k);
         }
         let f = |r: Ref| match r {
@@ -159,6 +165,11 @@ impl Prog {
         self.re_events = self.re_events.iter().map(|r| f(*r)).collect();
         self.cmp_events = self.cmp_events.iter().map(|(a, b)| (f(*a), f(*b))).collect();
         self.consts = newc;
+        remap
+    }
+
+    pub fn dedup_consts(&mut self) {
+        self.dedup_consts_keep(&[]);
     }
 
     /// position of a ref in the *input-relative* numbering used by the Coq side:
@@ -215,15 +226,16 @@ impl Prog {
         writeln!(s, "Definition {}_consts : list (Z * Z) := {}.", name, self.emit_consts()).unwrap();
         writeln!(s, "Definition {}_nvars : nat := {}.", name, self.nvars).unwrap();
         writeln!(s, "Definition {}_nouts : nat := {}.", name, self.outs.len()).unwrap();
-        let re: Vec<String> = self
-            .re_events
-            .iter()
-            .map(|r| self.final_index(*r).to_string())
-            .chain(self.cmp_events.iter().flat_map(|(a, b)| {
-                [self.final_index(*a).to_string(), self.final_index(*b).to_string()]
-            }))
-            .collect();
+        let re: Vec<String> = self.re_events.iter().map(|r| self.final_index(*r).to_string()).collect();
         writeln!(s, "Definition {}_re : list nat := [{}].", name, re.join("; ")).unwrap();
+        let cmp: Vec<String> = self
+            .cmp_events
+            .iter()
+            .map(|(a, b)| format!("({}, {})", self.final_index(*a), self.final_index(*b)))
+            .collect();
+        writeln!(s, "Definition {}_cmp : list (nat * nat) := [{}].", name, cmp.join("; ")).unwrap();
+        // output j (in the order of `outs`) sits at index nouts-1-j of the final value list
+        writeln!(s, "Definition {}_out (j : nat) : nat := {} - 1 - j.", name, self.outs.len()).unwrap();
         s
     }
 }
